@@ -142,6 +142,7 @@ type effSpec struct {
 	ensures  []effClause
 	xensures []effClause
 	modifies []effClause
+	ownMod   []effClause // modifies clauses written on the concrete function itself (representation level)
 	lets     []effClause
 	flags    map[string]bool
 	props    []string
